@@ -395,7 +395,7 @@ pub fn gen_case(rng: &mut Rng, p: &Profile) -> Case {
         }
         tasks.push(TaskSpec { handles, ops });
     }
-    Case { cap, ctor, class, mask: rng.next(), knobs: gen_knobs(rng, p), tasks, main_keeps_roots: false }
+    Case { cap, ctor, class, mask: rng.next(), knobs: gen_knobs(rng, p), tasks, main_keeps_roots: false, lock_harness: false }
 }
 
 /// the profile used by property `prop`
